@@ -15,6 +15,7 @@ pub mod c13;
 pub mod c14;
 mod c14_gen;
 mod c14_model;
+pub mod c15;
 pub mod c16;
 pub mod c16_db;
 mod c16_ins;
@@ -28,5 +29,5 @@ pub mod selftest;
 pub mod sqlcase;
 
 pub fn all() -> Vec<PropDef> {
-    vec![selftest::def(), c01::def(), c02::def(), c05::def(), c06::def(), c11::def(), c12::def(), c13::def(), c14::def(), c16::def(), c17::def(), c18::def(), c19::def(), c20::def()]
+    vec![selftest::def(), c01::def(), c02::def(), c05::def(), c06::def(), c11::def(), c12::def(), c13::def(), c14::def(), c15::def(), c16::def(), c17::def(), c18::def(), c19::def(), c20::def()]
 }
